@@ -164,7 +164,7 @@ def main(tier):
         ck.extra.setdefault("code_reached", {}).update({k: v for k, v in o.get("reached", {}).items() if k.startswith("jaxley")})
     for can, oc in zip(CANARIES, outs[len(chunks):]):
         ref = oc[0] == "ok" and any(r["status"] != "proved" for r in oc[1]["results"])
-        ck.canaries.append((f"{can[0]}: {can[2][:50]!r} -> {can[3][:50]!r}", ref))
+        ck.canary(f"{can[0]}: {can[2][:50]!r} -> {can[3][:50]!r}", ref, oc)
     for f in ("jaxley.integrate.integrate", "jaxley.integrate.add_stimuli", "jaxley.integrate.add_clamps", "jaxley.utils.jax_utils.nested_checkpoint_scan",
               "jaxley.utils.jax_utils._inner_nested_scan", "jaxley.modules.base.Module.step", "jaxley.modules.base.Module.to_jax"):
         ck.add_function(f, "body discharged" if not ck.violations else "body NOT discharged")
